@@ -59,24 +59,24 @@ type MarkRec struct{ Class, X, Y int }
 // Sub is one subtable; which fields are used depends on Kind.
 type Sub struct {
 	Kind                string
-	Set                 []int      // g11 p11 p22
-	Cov, Cov2           []KV       // coverage tables (Cov2: base/mark2 coverage)
-	Delta               int        // g11
-	Gids                []int      // g12 g81 substitutes
-	Lists               [][]int    // g21 g31
-	Ligs                [][]Lig    // g41
-	CovsB, CovsL        [][]KV     // g81
-	Rules               [][]Rule   // sc1 sc2 cc1 cc2
-	Cls, Cls2, Cls3     []KV       // sc2: Cls; cc2: back, input, look; p22: Cls, Cls2
-	SetsB, SetsI, SetsL [][]int    // sc3 (SetsI) cc3
-	Acts                []Act      // sc3 cc3
-	V                   *VR        // p11
-	Vs                  []*VR      // p12
-	Pairs               []PairEnt  // p21
+	Set                 []int       // g11 p11 p22
+	Cov, Cov2           []KV        // coverage tables (Cov2: base/mark2 coverage)
+	Delta               int         // g11
+	Gids                []int       // g12 g81 substitutes
+	Lists               [][]int     // g21 g31
+	Ligs                [][]Lig     // g41
+	CovsB, CovsL        [][]KV      // g81
+	Rules               [][]Rule    // sc1 sc2 cc1 cc2
+	Cls, Cls2, Cls3     []KV        // sc2: Cls; cc2: back, input, look; p22: Cls, Cls2
+	SetsB, SetsI, SetsL [][]int     // sc3 (SetsI) cc3
+	Acts                []Act       // sc3 cc3
+	V                   *VR         // p11
+	Vs                  []*VR       // p12
+	Pairs               []PairEnt   // p21
 	Adj                 [][]PairAdj // p22
-	EE                  [][4]int   // p31
-	Marks               []MarkRec  // p41 p61
-	Bases               [][][2]int // p41 p61
+	EE                  [][4]int    // p31
+	Marks               []MarkRec   // p41 p61
+	Bases               [][][2]int  // p41 p61
 }
 
 type Lookup struct {
